@@ -57,7 +57,7 @@ class Sim:
         self.harness_error = None
         self.dgram_seq = 0
         self.on_send = None  # callback(ep, serial, data) installed by the runner
-        self.send_errors = {}  # (idx, serial) -> errno
+        self.pre_send = None  # callback(ep, serial) -> errno | None, installed by the runner
         self.sleep_overshoot = None  # callable(ns) -> extra ns
         self.counters = {}
         self.step_limited = False
@@ -127,7 +127,7 @@ class Sim:
             ep.tx_serial += 1
             serial = ep.tx_serial
             data = bytes(data)
-            err = self.send_errors.get((ep.idx, serial))
+            err = self.pre_send(ep, serial) if self.pre_send is not None else None
             self.log("tx", ep.idx, serial, self.now, data.hex(), err)
             if err is not None:
                 self.count("fault.send-errno")
